@@ -25,6 +25,8 @@ use tracing::trace;
 
 #[cfg(test)]
 mod tests;
+#[cfg(all(test, feature = "verif"))]
+mod verif;
 
 #[derive(Debug, thiserror::Error)]
 enum SizedBundleError {
